@@ -92,6 +92,8 @@ def render_cb(prog, cbid, indent="    "):
         return (f"{indent}@staticmethod\n{indent}def {name}(**kw):\n"
                 f"{indent}    return SIM.cb({full!r}, kw.get('machine'), {{'kw': kw}}, {grp!r})\n")
     deco = f"{indent}@_sim_deco\n" if meta.get("wrapped") else ""
+    if meta.get("wrapped") == "sig":
+        deco = f"{indent}@_sim_deco_sig\n"
     if meta.get("noself") and [(q["name"], q["kind"]) for q in meta.get("sig", [])] == [("args", "var"), ("kw", "varkw")]:
         # a method that takes the instance through ``*args`` (catch-all listener methods, hand-written
         # pass-through wrappers): the event's positional arguments follow the instance
@@ -441,6 +443,13 @@ def render_program(prog, base_name=None):
         "        def hook(*args, **kw):",
         "            return SIM.cb(cbid, kw.get('machine'), {'args': args, 'kw': kw}, grp)",
         "    return hook",
+        "",
+        "def _sim_deco_sig(f):",
+        "    # a signature-preserving decorator of the kind that publishes ``__signature__``",
+        "    import inspect",
+        "    w = _sim_deco(f)",
+        "    w.__signature__ = inspect.signature(f)",
+        "    return w",
         "",
         "def _sim_deco(f):",
         "    if asyncio.iscoroutinefunction(f):",
